@@ -235,7 +235,7 @@ def run_gen(spec, res):
     schemas = {}
     for fam in D.FAMILIES:
         for v, cls in (('1.0', xmlschema.XMLSchema10), ('1.1', xmlschema.XMLSchema11)):
-            schemas[fam, v] = cls(D.FAMILIES[fam])
+            schemas[fam, v] = cls(D.family_xsd(fam, v))
     rng = env.rng_for(PROPERTY, spec['tier'], spec['seed'], spec['gshard'])
     scratch = tempfile.mkdtemp(prefix='c06-')
     for d in range(spec['docs']):
@@ -316,7 +316,7 @@ def replay(case):
         run_corpus({'tier': 'thorough', 'seed': 0}, res)
     else:
         cls = xmlschema.XMLSchema10 if case['version'] == '1.0' else xmlschema.XMLSchema11
-        schema = cls(D.FAMILIES[case['family']])
+        schema = cls(D.family_xsd(case['family'], case['version']))
         compare_document(res, xmlschema, schema, case['doc'], ('replay', ''), case, random.Random(0), 'thorough',
                          tempfile.mkdtemp(prefix='c06-'), 2)
     for v in res.violations:
